@@ -57,7 +57,7 @@ STARTS = {
     'absum': [[1.0, 1.0], [0.5, -0.25], [-2.0, 3.0], [0.0, 0.0, 0.0], [2.0, -1.0, 1.0]],
     'illq': [[1.0, 1.0], [-3.0, 0.125], [0.0, 2.0], [100.0, -0.01]],
     'steps': [[1.3, -0.7], [2.6, 1.7], [0.98, 1.96], [-1.5, -1.5], [1.3, -1.5], [3.9, -2.05, 0.49],
-              [0.0, 0.0], [7.9, 10.1]],
+              [0.0, 0.0], [7.9, 10.1], [2.6, -1.4, 0.7], [1.3, -0.7, 2.2]],
     'parab1': [[0.0], [3.0], [-2.5], [0.75], [0.7]],
 }
 STARTS_T = {   # added by the thorough tier
@@ -119,6 +119,14 @@ def _same(a, b, rel=REL, abs_=ABS):
 MYSTIC_ZDELT = (0.05 ** 2) * 0.1     # 0.00025000000000000006, what scipy_optimize.py l.137 computes
 
 
+def nm_adaptive_case(T, cname, x0, tol, maxiter):
+    """the solver with the sticky keyword adaptive=True (given once, on the first Step) against the reference with the
+    Gao-Han coefficients; only for dimensions where they differ from the standard ones (n != 2)"""
+    if len(x0) == 2 or tol < 1e-4:
+        return []       # long runs at 1e-8 meet comparisons decided by the last bit of non-dyadic coefficients
+    return _nm_case(T, cname, x0, tol, maxiter, MYSTIC_ZDELT if any(v == 0 for v in x0) else rnm.ZDELT, adaptive=True)
+
+
 def nm_case(T, cname, x0, tol, maxiter):
     """returns list of (sig, detail).  A deviation on a start with a zero coordinate is re-judged with the
     reference given mystic's own value for that vertex: if they then agree, the deviation is attributed to it"""
@@ -131,7 +139,7 @@ def nm_case(T, cname, x0, tol, maxiter):
     return out
 
 
-def _nm_case(T, cname, x0, tol, maxiter, zdelt):
+def _nm_case(T, cname, x0, tol, maxiter, zdelt, adaptive=False):
     from mystic.solvers import NelderMeadSimplexSolver
     from mystic.termination import CandidateRelativeTolerance as CRT
     cost = COSTS[cname]
@@ -146,9 +154,12 @@ def _nm_case(T, cname, x0, tol, maxiter, zdelt):
         rec = Recorder(cost)
         s.SetObjective(rec)
         last = None
-        for r in rnm.nelder_mead(cost, list(x0), tol, tol, maxiter, None, zdelt):
+        coeff = rnm.adaptive_coefficients(n) if adaptive else None
+        first = True
+        for r in rnm.nelder_mead(cost, list(x0), tol, tol, maxiter, None, zdelt, coeff):
             last = r
-            msg = s.Step()
+            msg = s.Step(adaptive=True) if (adaptive and first) else s.Step()
+            first = False
             k = len(r['sim'])
             sim = np.array(s.population, dtype=float)[:k]
             fsim = np.array(s.popEnergy, dtype=float)[:k]
@@ -159,6 +170,8 @@ def _nm_case(T, cname, x0, tol, maxiter, zdelt):
                     T.hist('nm_tie', t)
                 if r['ties'] and r['branch'] in FIVE:
                     T.hist('nm_branch_with_tie', r['branch'])
+                if adaptive:
+                    T.hist('nm_adaptive_branch', r['branch'])
                 T.state(('nm', r['branch'], tuple(map(tuple, r['sim'])), tuple(r['fsim'])))
             bad = []
             a = _same(sim, r['sim'])
@@ -179,7 +192,7 @@ def _nm_case(T, cname, x0, tol, maxiter, zdelt):
                 bad.append('bestSolution %r is not the lowest vertex %r' % (_fl(s.bestSolution), r['sim'][0]))
             if bad:
                 out.append(({'solver': 'NelderMead', 'clause': 'step_vs_textbook', 'branch': r['branch'],
-                             'tie': bool(r['ties'])},
+                             'tie': bool(r['ties']), 'adaptive': bool(adaptive)},
                             'NelderMeadSimplexSolver on %s from %r (xtol=ftol=%g, maxiter=%r), iteration %d '
                             '[reference branch %s, ties %s]: %s'
                             % (cname, x0, tol, maxiter, r['iter'], r['branch'], list(r['ties']), '; '.join(bad))))
@@ -419,7 +432,7 @@ def _guarded(fn, what):
     return run
 
 
-LOCAL = {'nm': _guarded(nm_case, 'nm'), 'fmin': _guarded(fmin_case, 'fmin'),
+LOCAL = {'nm': _guarded(nm_case, 'nm'), 'nm_adaptive': _guarded(nm_adaptive_case, 'nm_adaptive'), 'fmin': _guarded(fmin_case, 'fmin'),
          'powell': _guarded(pw_case, 'powell'), 'fmin_powell': _guarded(fminpow_case, 'fmin_powell')}
 
 
@@ -428,7 +441,9 @@ def shard_local(item):
     T = Tally()
     for tol in TOLS:
         for maxiter in MAXITERS:
-            for what in ('nm', 'fmin', 'powell', 'fmin_powell'):
+            for what in ('nm', 'nm_adaptive', 'fmin', 'powell', 'fmin_powell'):
+                if what == 'nm_adaptive' and (len(x0) == 2 or tol < 1e-4):
+                    continue
                 T.count('traces')
                 T.nontriv((what, cname, tuple(x0), tol, maxiter))
                 for sig, detail in LOCAL[what](T, cname, x0, tol, maxiter):
@@ -712,7 +727,12 @@ def dsphere(x):
     return float(sum((v - 0.25) ** 2 for v in x))
 
 
-GCOSTS = {'dsteps': dsteps, 'dsphere': dsphere}
+def dnan(x):
+    """not a number on a half space (e.g. a sqrt of a negative argument): a NaN trial is not 'of strictly lower energy'"""
+    return float('nan') if x[0] < 0 else float(sum(math.floor(v) ** 2 for v in x))
+
+
+GCOSTS = {'dsteps': dsteps, 'dsphere': dsphere, 'dnan': dnan}
 
 
 def start_population(NP, dim):
@@ -770,7 +790,7 @@ def _gen_execution(kind, name, NP, dim, CR, F, cname, G, cap, ch, info):
         pop = start_population(NP, dim)
         energy = [cost(v) for v in pop]
         st = _snap(s)
-        model = rde.select([[0.0] * dim for _ in pop], [float('inf')] * NP, list(pop[0]), float('inf'), pop, energy)
+        model = rde.select([list(v) for v in pop], [float('inf')] * NP, list(pop[0]), float('inf'), pop, energy)
         if rng.calls:
             bad.append(('generation0', 'generation 0 drew random numbers: %r' % (rng.calls[:3],)))
         if not (all(_veq(a, b) for a, b in zip(st['pop'], model[0])) and _veq(st['energy'], model[1])
@@ -908,6 +928,9 @@ def run(ctx):
             NP = gen_np[rde.nsample(name)][npi]
             for CR, F in ((edge + ((1.0, 1.0),)) if th else (edge[(ni + ki) % 2],)):
                 items.append(('gen', kind, name, NP, dim, CR, F, cname, G, 2, cap))
+            # a cost that returns NaN on a half space (selection must not let a NaN trial in)
+            if th or ni in (1, 2, 7):
+                items.append(('gen', kind, name, NP, dim, 0.9, 0.8, 'dnan', G, 2, cap))
     # --- trial-level DE
     if th:
         tplan = [(NP, d) for NP in (4, 5, 6) for d in (1, 2, 3)] + [(7, 1), (7, 2), (6, 4)]
